@@ -326,3 +326,18 @@ def run_pmf(tier="quick", seed=0):
             if not (np.all(np.isfinite(g)) and np.allclose(g, ref, rtol=1e-7, atol=1e-6)):
                 problems.append("extreme depth n=%d b=%d %s: max difference %.3g" % (n, b, density, np.abs(g - ref).max()))
     return {"cases": cases, "problems": problems}
+
+
+def run_large_precision(precisions=(1e4, 1e6, 1e13)):
+    """C05, 'any precision': the beta-binomial grid of one locus summed over all alternate counts, for growing precision.
+    One record per precision: defect = max over the grid of |sum_b exp(grid[b]) - 1| (independent of any reference pmf)."""
+    from phyclone.data.pyclone import DataPoint, SampleDataPoint, get_major_cn_prior
+
+    out = []
+    n = 50
+    cn, mu, log_pi = get_major_cn_prior(2, 1, 2, error_rate=1e-3)
+    for prec in precisions:
+        g = np.array([DataPoint(["s"], [SampleDataPoint(n - b, b, cn, mu, log_pi, 0.8)]).to_likelihood_grid("beta-binomial", 3, precision=prec)[0] for b in range(n + 1)])
+        tot = np.exp(g).sum(axis=0)
+        out.append({"precision": prec, "depth": n, "defect": float(np.abs(tot - 1).max()), "sums": [float(x) for x in tot], "finite": bool(np.all(np.isfinite(g)))})
+    return out
